@@ -26,6 +26,7 @@ pub fn prop() -> HistProp {
         thorough: 30000,
         mk: |_, _, _| Box::new(C03 { nontrivial: false }),
         extra: None,
+        many_batches: 1,
     }
 }
 
